@@ -245,6 +245,9 @@ class Verdict:
         if ok:
             self.discharged += n
 
+    def is_known(self, key):
+        return any(k.get("status", "known") == "known" and k.get("key") == key for k in self.known)
+
     def violation(self, key, text, payload, no_input=False):
         """key: stable identifier of *what fails* (matched against known_findings.json)."""
         for k in self.known:
